@@ -38,6 +38,7 @@ type Directives struct {
 	Abstract map[string]bool // spec functions treated as uninterpreted (no definition) in this VC
 	Target  string // explicit target override: "pkgpath.Func" for external contracts
 	Timeout int
+	Uninterp bool // spec function: always an uninterpreted function (its Go body is only used when replaying)
 	Unfold  int // spec functions: recursion is inlined up to this depth (then uninterpreted)
 	Raw     []string
 }
@@ -124,6 +125,8 @@ func parseDirectives(cg *ast.CommentGroup) *Directives {
 			d.Trusted = true
 		case "opaque":
 			d.Opaque = true
+		case "uninterpreted":
+			d.Uninterp = true
 		case "split":
 			d.Split = true
 		case "nopanic":
